@@ -1,3 +1,4 @@
+import Std.Data.HashSet
 import Litep2pVerif.Common.Parse
 import Litep2pVerif.Model.Conn.Accept
 /-! Line-protocol driver for the `tcploop` area: `Model/Conn/Permits.lean` against the real
@@ -15,13 +16,36 @@ the first order produces). All other operations are deterministic. -/
 namespace Litep2pVerif.Driver.Tcploop
 open Litep2pVerif Litep2pVerif.Conn Parse
 
-inductive Policy | accept | refuse | stall
+inductive Policy | accept | refuse | stall | fallback
   deriving DecidableEq, Repr
 
+/-- `SubstreamOpened` / `SubstreamOpenFailure` as printed (`Oi..`, `Oo<id>..`, `X<id>`). -/
+def isAns (m : String) : Bool := m.startsWith "O" || m.startsWith "X"
+
+/-- The order in which the answers to different requests (and inbound substreams) reach a protocol within one
+operation is `FuturesUnordered`'s business and part of no property: observations are compared up to the order of the
+answers among themselves (everything else keeps its place). -/
+def canonField (v : String) : String :=
+  let items := v.splitOn ","
+  let ans := ((items.filter isAns).toArray.qsort (fun a b => a < b)).toList
+  (items.foldl (fun (acc : List String × List String) m =>
+    if isAns m then
+      match acc.2 with
+      | a :: rest => (acc.1 ++ [a], rest)
+      | [] => (acc.1 ++ [m], [])
+    else (acc.1 ++ [m], acc.2)) ([], ans)).1 |> joinWith ","
+
+def canon (o : String) : String :=
+  joinWith " " ((tokens o).map fun t =>
+    match t.splitOn "=" with
+    | [k, v] => if k.startsWith "p" then k ++ "=" ++ canonField v else t
+    | _ => t)
+
 /-- A substream opened by the remote. `proposal`: `none` = only the multistream header was sent,
-`some none` = an unknown protocol was proposed, `some (some j)` = protocol `j`. -/
+`some none` = an unknown name was proposed, `some (some (j, f))` = name `f` of protocol `j` (`f = 0`: the main
+name, `f > 0`: the `f`-th fallback name). -/
 structure RStream where
-  proposal : Option (Option Nat) := none
+  proposal : Option (Option (Nat × Nat)) := none
   taken : Bool := false
   sub : Option Nat := none
   reset : Bool := false
@@ -32,8 +56,18 @@ structure DState where
   n : Nat
   rstreams : List RStream := []
   policy : Policy := .accept
-  /-- answers of the remote to substreams opened by the local end: table index ↦ policy -/
+  /-- answers of the remote to substreams opened by the local end (from the moment `open_stream` returned and the
+  multistream header went out): table index ↦ policy -/
   outAns : List (Nat × Policy) := []
+  /-- number of fallback names per protocol (`fb=`) -/
+  fbs : List Nat := []
+  /-- table index ↦ fallback name it was negotiated under (absent = main name) -/
+  fbOf : List (Nat × Nat) := []
+  /-- per protocol, request ids of the `SubstreamOpenFailure` messages in its channel, in order -/
+  xq : List (List Nat) := []
+  /-- checker mode, connections with `sot=`: per protocol, the ids of the open failures the implementation reported
+  during the current operation, in order, not yet accounted for (timeouts of outbound requests are taken from here) -/
+  script : List (List Nat) := []
   paused : List Bool := []
   remoteClosed : Bool := false
   /-- per protocol, table indices of the `SubstreamOpened` messages in its channel, in order -/
@@ -75,6 +109,23 @@ def subNegotiating (d : DState) (k : Nat) : Bool :=
   | some x => x.stage == .negotiating
   | none => false
 
+def subStage (d : DState) (k : Nat) : Option Stage := (d.t.subs[k]?).map (·.stage)
+
+def subPending (d : DState) (k : Nat) : Bool :=
+  match d.t.subs[k]? with
+  | some x => x.stage.pending
+  | none => false
+
+/-- The request id the adapter gave to the outbound table entry `k`: `1000 + n` for the n-th accepted request
+(commands are taken in FIFO order, so the n-th outbound entry of the table). -/
+def sidOf (d : DState) (k : Nat) : Nat := 1000 + ((d.t.subs.take k).filter fun x => !x.inbound).length
+
+/-- Outbound yamux streams waiting for the remote's acknowledgement: a remote that stalls never writes. -/
+def ackBacklog (d : DState) : Nat :=
+  (d.outAns.filter fun (k, p) => p == .stall && subStage d k == some .negotiating).length
+
+def firstOpening (d : DState) : Option Nat := d.t.subs.findIdx? fun x => x.stage == .opening
+
 def enabled (d : DState) : List TLabel :=
   -- before the accept future has resolved there is no loop to poll
   if d.t.running = false || d.phase != .up then [] else
@@ -88,7 +139,7 @@ def enabled (d : DState) : List TLabel :=
     | some k =>
       if !subNegotiating d k then [] else
       let ok := match r.proposal with
-        | some (some j) => if j < d.n then [TLabel.negOk k j] else []
+        | some (some (j, f)) => if j < d.n then [if f = 0 then TLabel.negOk k j else TLabel.negOkFb k j f] else []
         | _ => []
       if r.reset then ok ++ [TLabel.negFail k] else ok
   let out := if d.remoteClosed then [] else d.outAns.flatMap fun (k, p) =>
@@ -97,17 +148,47 @@ def enabled (d : DState) : List TLabel :=
     | .accept, some x => match x.proto with
       | some i => [TLabel.negOk k i]
       | none => []
+    -- the remote only knows the first fallback name of every protocol
+    | .fallback, some x => match x.proto with
+      | some i => if 0 < d.fbs.getD i 0 then [TLabel.negOkFb k i 1] else [TLabel.negFail k]
+      | none => []
     | .refuse, _ => [TLabel.negFail k]
     | _, _ => []
   let cmd := if d.t.cmdQ.isEmpty then [] else [TLabel.takeCmd]
   let idle := if d.t.idleEnabled then [TLabel.idleExit] else []
-  acc ++ inb ++ out ++ cmd ++ idle
+  -- `Control::open_stream()` returns (FIFO) unless too many streams wait for an acknowledgement
+  let opn := if d.remoteClosed then [] else match firstOpening d with
+    | some k => if ackBacklog d < Consts.YAMUX_MAX_ACK_BACKLOG then [TLabel.yamuxOpened k] else []
+    | none => []
+  acc ++ inb ++ out ++ cmd ++ opn ++ idle
+
+/-- Transitions that commute with every other one and are invisible: taking an open request out of the command
+channel and the yamux stream of a request having been opened. When nothing else is enabled they are fired in a fixed
+order instead of in every order (a burst of requests). -/
+def internal (d : DState) : TLabel → Bool
+  | .yamuxOpened _ => true
+  | .takeCmd => match d.t.cmdQ with
+    | .openSub _ :: _ => true
+    | _ => false
+  | _ => false
 
 /-- Transitions that MAY fire: `tokio::time::timeout(open_timeout, ..)` around every negotiation, in a connection
 whose `substream_open_timeout` was made small (`sot=`). -/
-def enabledOpt (d : DState) : List TLabel :=
+def enabledOpt (d : DState) (scripted : Bool) : List TLabel :=
   if d.t.running = false || d.phase != .up || !d.timeouts then [] else
-  (List.range d.t.subs.length).filterMap fun k => if subNegotiating d k then some (TLabel.negFail k) else none
+  (List.range d.t.subs.length).filterMap fun k =>
+    match d.t.subs[k]? with
+    | none => none
+    | some x =>
+      if !x.stage.pending then none else
+      match x.inbound, x.proto with
+      | false, some i =>
+        -- the failure of an outbound request is reported: if the protocol is listening, the implementation's
+        -- observation says which requests failed during this operation (`scripted`; answers are compared up to
+        -- their order, so the lowest id goes first)
+        if d.paused.getD i false then (if scripted then none else some (TLabel.negFail k))
+        else if scripted && (d.script.getD i []).min? == some (sidOf d k) then some (TLabel.negFail k) else none
+      | _, _ => if scripted then none else some (TLabel.negFail k)
 
 def pushInq (inq : List (List Nat)) (p k : Nat) : List (List Nat) :=
   match inq[p]? with
@@ -125,26 +206,52 @@ def apply (d : DState) (l : TLabel) : DState :=
       let sub := if t'.subs.length > d.t.subs.length then some d.t.subs.length else none
       { d with t := t', rstreams := d.rstreams.modify i fun r => { r with taken := true, sub := sub } }
     | none => { d with t := t' }
-  | .takeCmd =>
-    match d.t.cmdQ with
-    | .openSub _ :: _ => { d with t := t', outAns := d.outAns ++ [(d.t.subs.length, d.policy)] }
-    | _ => { d with t := t' }
+  | .yamuxOpened k =>
+    if subStage d k == some .opening then { d with t := t', outAns := d.outAns ++ [(k, d.policy)] } else { d with t := t' }
   | .negOk k p =>
     let delivered : Bool := match t'.subs[k]? with
       | some x => x.stage == .queued
       | none => false
     { d with t := t', inq := if delivered then pushInq d.inq p k else d.inq }
+  | .negOkFb k p f =>
+    let delivered : Bool := match t'.subs[k]? with
+      | some x => x.stage == .queued
+      | none => false
+    { d with t := t', inq := if delivered then pushInq d.inq p k else d.inq, fbOf := d.fbOf ++ [(k, f)] }
+  | .negFail k =>
+    match d.t.subs[k]? with
+    | some x =>
+      match x.inbound, x.proto with
+      | false, some i =>
+        if !subPending d k || d.t.running = false then { d with t := t' } else
+        -- the failure message is in the channel (or being sent) unless the protocol has shut down
+        let sid := sidOf d k
+        let xq := if protoAlive d.t i then pushInq d.xq i sid else d.xq
+        let script := d.script.modify i (·.erase sid)
+        { d with t := t', xq := xq, script := script }
+      | _, _ => { d with t := t' }
+    | none => { d with t := t' }
   | _ => { d with t := t' }
 
 def stageStr : Stage → String
-  | .negotiating => "n" | .queued => "q" | .held => "h" | .heldHalf => "H" | .gone => "g"
+  | .opening => "o" | .negotiating => "n" | .queued => "q" | .held => "h" | .heldHalf => "H" | .gone => "g"
 
 def subStr (d : DState) (k : Option Nat) : String :=
   match k.bind (d.t.subs[·]?) with
   | some x => stageStr x.stage ++ (match x.proto with | some p => toString p | none => "_")
   | none => "-"
 
-/-- Letters of the messages in protocol `i`'s channel (`Oi`/`Oo` through `inq`). -/
+/-- How the adapter prints the `SubstreamOpened` event of table entry `k`. -/
+def openedStr (d : DState) (k : Nat) : String :=
+  let base := match d.t.subs[k]? with
+    | some x => if x.inbound then "Oi" else s!"Oo{sidOf d k}"
+    | none => "O?"
+  match d.fbOf.lookup k with
+  | some f => base ++ s!".f{f}"
+  | none => base
+
+/-- The messages in protocol `i`'s channel as they will be observed (`SubstreamOpened` through `inq`: the order of two
+substreams negotiated under different names, or with different ids, is part of the state). -/
 def queueLetters (d : DState) (i : Nat) : List String :=
   match d.t.loop.ps.chans[i]? with
   | none => []
@@ -154,9 +261,7 @@ def queueLetters (d : DState) (i : Nat) : List String :=
       match m with
       | .substreamOpened =>
         match acc.2 with
-        | k :: rest => (acc.1 ++ [match d.t.subs[k]? with
-            | some x => if x.inbound then "Oi" else "Oo"
-            | none => "O?"], rest)
+        | k :: rest => (acc.1 ++ [openedStr d k], rest)
         | [] => (acc.1 ++ ["O?"], [])
       | .established => (acc.1 ++ ["E"], acc.2)
       | .closed => (acc.1 ++ ["C"], acc.2)
@@ -173,11 +278,11 @@ def key (d : DState) : String :=
   let hs := String.join (d.t.handles.map fun h => match h with | .dropped => "d" | .inactive => "i" | .active => "a")
   let cq := String.join (d.t.cmdQ.map fun c => match c with | .openSub i => s!"o{i}" | .forceClose => "f")
   let rs := joinWith ";" (d.rstreams.map fun r =>
-    (match r.proposal with | none => "h" | some none => "u" | some (some j) => toString j) ++
+    (match r.proposal with | none => "h" | some none => "u" | some (some (j, f)) => s!"{j}.{f}") ++
     (if r.taken then "t" else "w") ++ (if r.reset then "r" else "") ++ subStr d r.sub)
   let os := joinWith ";" (d.outAns.map fun (k, p) =>
-    (match p with | .accept => "a" | .refuse => "r" | .stall => "s") ++ subStr d (some k))
-  let qs := joinWith ";" ((List.range d.n).map fun i => joinWith "," (queueLetters d i))
+    (match p with | .accept => "a" | .refuse => "r" | .stall => "s" | .fallback => "f") ++ subStr d (some k))
+  let qs := joinWith ";" ((List.range d.n).map fun i => canonField (joinWith "," (queueLetters d i)))
   let mg := (if l.ps.mgr.alive then toString l.ps.mgr.queue.length else "x") ++
     (match l.ps.call with
       | .idle => "i"
@@ -187,22 +292,33 @@ def key (d : DState) : String :=
     (match d.phase with | .parked => "P" | .notifying => "N" | .failed => "F" | .up => "U") ++
     (if d.probe then "b" else "") ++
     String.join (d.t.subs.map fun x => stageStr x.stage ++ (match x.proto with | some p => toString p | none => "_"))
+  let srt := fun (q : List Nat) => (q.toArray.qsort (fun a b => a < b)).toList
+  let xs := joinWith ";" (d.xq.map fun q => joinWith "," ((srt q).map toString))
+  let sc := joinWith ";" (d.script.map fun q => joinWith "," ((srt q).map toString))
+  let fb := joinWith "," (((d.fbOf.map fun (k, f) => k * 4 + f).toArray.qsort (fun a b => a < b)).toList.map toString)
   ex ++ co ++ s!"|{d.t.accepted}|" ++ hs ++ "|" ++ cq ++ "|" ++ rs ++ "|" ++ os ++ "|" ++ qs ++ "|" ++ mg ++
-    (if l.ps.closedReported then "|R" else "|")
+    (if l.ps.closedReported then "|R" else "|") ++ "|" ++ xs ++ "|" ++ sc ++ "|" ++ fb
 
 /-- Every state (up to `key`) reachable by firing enabled transitions until none is enabled. -/
-partial def exploreK (work : List DState) (seen : List String) (finals : List DState) : List DState :=
+partial def exploreK (work : List DState) (seen : Std.HashSet String) (finals : List DState) : List DState :=
   match work with
   | [] => finals
   | d :: rest =>
     let k := key d
     if seen.contains k then exploreK rest seen finals else
     let evs := enabled d
-    let opt := enabledOpt d
-    if evs.isEmpty then exploreK (opt.map (apply d) ++ rest) (k :: seen) (finals ++ [d])
-    else exploreK ((evs ++ opt).map (apply d) ++ rest) (k :: seen) finals
+    match evs with
+    | e :: _ =>
+      -- only invisible, commuting transitions are enabled: one order is enough (timeouts can wait, they commute too)
+      if evs.all (internal d) then exploreK (apply d e :: rest) (seen.insert k) finals
+      else exploreK ((evs ++ enabledOpt d true ++ enabledOpt d false).map (apply d) ++ rest) (seen.insert k) finals
+    | [] =>
+      let scr := enabledOpt d true
+      -- a failure the implementation reported during this operation is still to come: not the end of the operation
+      if !scr.isEmpty then exploreK ((scr ++ enabledOpt d false).map (apply d) ++ rest) (seen.insert k) finals
+      else exploreK ((enabledOpt d false).map (apply d) ++ rest) (seen.insert k) (finals ++ [d])
 
-def explore (work : List DState) (_seen _finals : List DState) : List DState := exploreK work [] []
+def explore (work : List DState) (_seen _finals : List DState) : List DState := exploreK work {} []
 
 /-! ### draining and the observation -/
 
@@ -221,17 +337,17 @@ def drainProto (fuel : Nat) (d : DState) (i : Nat) (acc : List String) : DState 
       match c.queue.head? with
       | none => (d, acc)
       | some m =>
-        let (l, inq) := match m with
+        let (l, inq, xq) := match m with
           | .substreamOpened =>
             match (d.inq[i]?).bind List.head? with
-            | some k =>
-              let dir := match d.t.subs[k]? with
-                | some x => if x.inbound then "Oi" else "Oo"
-                | none => "O?"
-              (dir, d.inq.modify i List.tail)
-            | none => ("O?", d.inq)
-          | m => (letter m, d.inq)
-        let d' := dstep { d with inq := inq } (.recv i)
+            | some k => (openedStr d k, d.inq.modify i List.tail, d.xq)
+            | none => ("O?", d.inq, d.xq)
+          | .openFailure =>
+            match (d.xq[i]?).bind List.head? with
+            | some sid => (s!"X{sid}", d.inq, d.xq.modify i List.tail)
+            | none => ("X?", d.inq, d.xq)
+          | m => (letter m, d.inq, d.xq)
+        let d' := dstep { d with inq := inq, xq := xq } (.recv i)
         drainProto fuel { d' with probe := d'.probe || m == .established } i (acc ++ [l])
 
 def drainMgr (fuel : Nat) (d : DState) (acc : List String) : DState × List String :=
@@ -306,21 +422,38 @@ structure Opts where
   mcap : Nat := 64
   timeouts : Bool := false
   via : Bool := false
+  fbs : List Nat := []
 
 def freshConnO (ka : List Bool) (policy : Policy) (o : Opts) : DState :=
   let t0 := if o.via then (ainit ka o.cap o.mcap).t else tinit ka o.cap
   let t0 := { t0 with loop := { t0.loop with ps := { t0.loop.ps with mgr := { cap := o.mcap } } } }
   { t := t0, n := ka.length, policy := policy, paused := List.replicate ka.length false,
     inq := List.replicate ka.length [], via := o.via, phase := if o.via then .parked else .up,
-    timeouts := o.timeouts }
+    timeouts := o.timeouts, xq := List.replicate ka.length [], script := List.replicate ka.length [],
+    fbs := (List.range ka.length).map fun i => o.fbs.getD i 0 }
 
 def freshConn (ka : List Bool) (policy : Policy) : DState := freshConnO ka policy {}
 
 /-- `run`-like: explore to quiescence, drain, repeat while something was taken. Every outcome. -/
-partial def runLike (d : DState) (acc : Got) : List (DState × Got) :=
-  (explore [d] [] []).flatMap fun f =>
+def gotKey (g : Got) : String :=
+  joinWith ";" (g.ps.map fun p => match p with
+    | some l => canonField (joinWith "," l)
+    | none => "x") ++ "#" ++ joinWith "," g.m
+
+/-- One round for every candidate: explore to quiescence, drain. Candidates that agree on the state (`key`) and on
+what has been observed so far (up to the order of answers) are one candidate. -/
+partial def runRounds (cur : List (DState × Got)) (done : List (DState × Got)) : List (DState × Got) :=
+  if cur.isEmpty then done else
+  let step := cur.flatMap fun (d, acc) => (explore [d] [] []).map fun f =>
     let (f', g) := drainAll f
-    if g.isEmpty then [(f', acc.append g)] else runLike f' (acc.append g)
+    (f', acc.append g, g.isEmpty)
+  let (uniq, _) := step.foldl (fun (a : Array (DState × Got × Bool) × Std.HashSet String) x =>
+    let k := key x.1 ++ "#" ++ gotKey x.2.1
+    if a.2.contains k then a else (a.1.push x, a.2.insert k)) (#[], {})
+  let l := uniq.toList
+  runRounds ((l.filter fun x => !x.2.2).map fun x => (x.1, x.2.1)) (done ++ (l.filter fun x => x.2.2).map fun x => (x.1, x.2.1))
+
+partial def runLike (d : DState) (acc : Got) : List (DState × Got) := runRounds [(d, acc)] []
 
 def emptyGot (d : DState) : Got :=
   { ps := (List.range d.n).map fun i => match d.t.loop.ps.chans[i]? with
@@ -334,11 +467,20 @@ def runLikeObs (ds : List DState) (ret : String) : List (DState × String) :=
 def heldCount (d : DState) (i : Nat) : Nat :=
   (d.t.subs.filter fun x => x.proto == some i && (x.stage == .held || x.stage == .heldHalf)).length
 
-def protoTok (n : Nat) (s : String) : Option (Option Nat) :=
+/-- `x` | `<j>` | `<j>.f<k>`: `none` = unparseable, `some none` = a name no installed protocol has. -/
+def nameTok (d : DState) (s : String) : Option (Option (Nat × Nat)) :=
   if s = "x" then some none else
-  match s.toNat? with
-  | some j => if j < 4 then some (if j < n then some j else none) else none
-  | none => none
+  let (js, fs) := match s.splitOn ".f" with
+    | [j, f] => (j, some f)
+    | _ => (s, none)
+  match js.toNat?, fs with
+  | some j, none => if j < 4 then some (if j < d.n then some (j, 0) else none) else none
+  | some j, some f =>
+    match f.toNat? with
+    | some f =>
+      if j < 4 && 1 ≤ f && f ≤ 2 then some (if j < d.n && f ≤ d.fbs.getD j 0 then some (j, f) else none) else none
+    | none => none
+  | none, _ => none
 
 def handleOf (d : DState) (i : Nat) : HandleSt := d.t.handles.getD i .dropped
 
@@ -362,6 +504,21 @@ def checkRace (k : Nat) (impl : String) : String :=
   let total := parsed.foldl (fun a p => a + p.2.getD 0) 0
   if !toks.isEmpty && parsed.all (fun p => allowed.contains p.1 && p.2.isSome) && total = k then impl
   else "each-of:" ++ joinWith "|" allowed ++ s!" total={k}"
+
+/-- `try_get_permit` + `open_substream` by protocol `i`. -/
+def localOpen (d : DState) (i : Nat) : DState × String :=
+  if handleOf d i = .dropped then (d, "none") else
+  if !(canSend d.t i && d.t.loop.exited.isNone) then (d, "closed")
+  else if !d.t.cmdRoom then (d, "clogged")
+  else (dstep d (.localOpen i), "ok")
+
+/-- `n` requests in a row, stopping at the first one that is not accepted: new state, accepted, last answer. -/
+def burst : Nat → DState → Nat → Nat → DState × Nat × String
+  | 0, d, _, acc => (d, acc, "ok")
+  | n + 1, d, i, acc =>
+    match localOpen d i with
+    | (d', "ok") => burst n d' i (acc + 1)
+    | (d', r) => (d', acc, r)
 
 /-- One deterministic operation on one candidate: `none` = unparseable. -/
 def opOn (d : DState) (ts : List String) : Option (DState × String) :=
@@ -389,25 +546,30 @@ def opOn (d : DState) (ts : List String) : Option (DState × String) :=
     match idx i with
     | none => none
     | some i =>
-      if handleOf d i = .dropped then fin d "none" else
-      if canSend d.t i && d.t.loop.exited.isNone then fin (dstep d (.localOpen i)) "ok"
-      else fin d "closed"
+      fin (localOpen d i).1 (localOpen d i).2
+  | ["burst", i, k] =>
+    match idx i, (k.toNat?).filter (fun k => 1 ≤ k && k ≤ 600) with
+    | some i, some k =>
+      let (d', acc, last) := burst k d i 0
+      fin d' (if last = "ok" then s!"ok{acc}" else s!"ok{acc},{last}")
+    | _, _ => none
   | ["force_close", i] =>
     match idx i with
     | none => none
     | some i =>
       if handleOf d i = .dropped then fin d "none" else
-      if canSend d.t i && d.t.loop.exited.isNone then fin (dstep d (.forceClose i)) "ok"
-      else fin d "closed"
+      if !(canSend d.t i && d.t.loop.exited.isNone) then fin d "closed"
+      else if !d.t.cmdRoom then fin d "clogged"
+      else fin (dstep d (.forceClose i)) "ok"
   | ["remote_open", name, how] =>
-    match protoTok d.n name, (how = "hdr" || how = "full") with
+    match nameTok d name, (how = "hdr" || how = "full") with
     | some p, true =>
       if d.remoteClosed then fin d "none" else
       let r : RStream := { proposal := if how = "full" then some p else none }
       fin { d with rstreams := d.rstreams ++ [r] } s!"s{d.rstreams.length}"
     | _, _ => none
   | ["remote_continue", k, name] =>
-    match k.toNat?, protoTok d.n name with
+    match k.toNat?, nameTok d name with
     | some k, some p =>
       match d.rstreams[k]? with
       | some r =>
@@ -437,6 +599,7 @@ def opOn (d : DState) (ts : List String) : Option (DState × String) :=
     | "accept" => fin { d with policy := .accept } "ok"
     | "refuse" => fin { d with policy := .refuse } "ok"
     | "stall" => fin { d with policy := .stall } "ok"
+    | "fallback" => fin { d with policy := .fallback } "ok"
     | _ => none
   | ["drop_sub", i] =>
     match idx i with
@@ -476,14 +639,15 @@ def opOn (d : DState) (ts : List String) : Option (DState × String) :=
   | _ => none
 
 def dedup (l : List DState) : List DState :=
-  (l.foldl (fun (acc : List DState × List String) d =>
+  (l.foldl (fun (acc : Array DState × Std.HashSet String) d =>
     let k := key d
-    if acc.2.contains k then acc else (acc.1 ++ [d], k :: acc.2)) ([], [])).1
+    if acc.2.contains k then acc else (acc.1.push d, acc.2.insert k)) (#[], {})).1.toList
 
 /-- Keep the candidates whose observation is the implementation's; if there is none, answer with the first
 candidate's observation (a disagreement) and go on with all of them. -/
 def choose (outs : List (DState × String)) (impl : String) : State × String :=
-  let hit := outs.filter fun x => x.2 = impl
+  let ci := canon impl
+  let hit := outs.filter fun x => canon x.2 = ci
   if !hit.isEmpty then ({ ds := dedup (hit.map (·.1)) }, impl)
   else match outs.head? with
     | some (_, o) => ({ ds := dedup (outs.map (·.1)) }, o)
@@ -494,11 +658,32 @@ def natArg (args : List String) (k : String) (lo hi dflt : Nat) : Option Nat :=
   | none => some dflt
   | some v => (v.toNat?).filter fun n => lo ≤ n && n ≤ hi
 
+/-- `fb=<i>:<k>,..` (every `fb=` argument): fallback names per protocol; `none` = malformed. -/
+def fbArg (n : Nat) (args : List String) : Option (List Nat) :=
+  let parts := (args.filter (·.startsWith "fb=")).flatMap fun a => (a.drop 3).toString.splitOn ","
+  parts.foldl (fun acc part =>
+    match acc, part.splitOn ":" with
+    | some l, [i, k] =>
+      match i.toNat?, k.toNat? with
+      | some i, some k => if i < n && 1 ≤ k && k ≤ 2 then some (l.set i k) else none
+      | _, _ => none
+    | _, _ => none) (some (List.replicate 4 0))
+
+/-- The ids of the open failures the implementation reported to each protocol during this operation. -/
+def scriptOf (n : Nat) (impl : String) : List (List Nat) :=
+  let ts := tokens impl
+  (List.range n).map fun i =>
+    match arg? s!"p{i}" ts with
+    | some v => (v.splitOn ",").filterMap fun m => if m.startsWith "X" then (m.drop 1).toString.toNat? else none
+    | none => []
+
 def step (st : State) (line : String) : State × String :=
   let (line, impl) := match line.splitOn " -> " with
     | [l, o] => (l, o)
     | _ => (line, "")
   let ts := tokens line
+  -- checker mode: what the implementation reported tells which outbound requests timed out (`sot=`)
+  let st : State := { ds := st.ds.map fun d => { d with script := if d.timeouts then scriptOf d.n impl else d.script } }
   let idxOf := fun (d : DState) (s : String) => (s.toNat?).filter (· < d.n)
   match ts with
   | "conn" :: args =>
@@ -509,18 +694,20 @@ def step (st : State) (line : String) : State × String :=
       | some "accept" => some .accept
       | some "refuse" => some .refuse
       | some "stall" => some .stall
+      | some "fallback" => some .fallback
       | _ => none
     let okArgs := args.all fun a => a.startsWith "ka=" || a.startsWith "remote=" || a.startsWith "cap=" ||
-      a.startsWith "mcap=" || a.startsWith "sot=" || a = "via=accept"
+      a.startsWith "mcap=" || a.startsWith "sot=" || a = "via=accept" || a.startsWith "fb="
     if !okArgs || kas.isEmpty || kas.length > 4 || !(kas.toList.all fun c => c = 'Y' || c = 'N') then (st, "bad-op") else
-    match pol, natArg args "cap" 1 64 64, natArg args "mcap" 1 64 64, natArg args "sot" 100 3600000 3600000 with
-    | some pol, some cap, some mcap, some _ =>
+    match pol, natArg args "cap" 1 64 64, natArg args "mcap" 1 64 64, natArg args "sot" 100 3600000 3600000,
+        fbArg kas.length args with
+    | some pol, some cap, some mcap, some _, some fbs =>
       if impl = "inconclusive" then (st, "inconclusive") else
       let o : Opts := { cap := cap, mcap := mcap, timeouts := (arg? "sot" args).isSome,
-                        via := args.contains "via=accept" }
+                        via := args.contains "via=accept", fbs := fbs }
       let (d, o) := observe (freshConnO (kas.toList.map (· = 'Y')) pol o) "ok"
       ({ ds := [d] }, o)
-    | _, _, _, _ => (st, "bad-op")
+    | _, _, _, _, _ => (st, "bad-op")
   | ["arrange_race", k] =>
     match k.toNat? with
     | some k => if k ≤ 256 then (st, checkRace k impl) else (st, "bad-op")
